@@ -498,7 +498,8 @@ class StateManager:
             logw, _ = self.compute_logw_and_logz(1.0)
             self._results_dict["logw"] = logw
 
-        return self._results_dict
+        # Hand out copies so callers cannot modify the cached arrays
+        return {k: self._ensure_copy(v) for k, v in self._results_dict.items()}
 
     def to_dict(self) -> dict:
         """
@@ -523,8 +524,10 @@ class StateManager:
         0.5
         """
         return {
-            "_current": self._current.copy(),
-            "_history": {k: list(v) for k, v in self._history.items()},
+            "_current": {k: self._ensure_copy(v) for k, v in self._current.items()},
+            "_history": {
+                k: [self._ensure_copy(x) for x in v] for k, v in self._history.items()
+            },
             "n_dim": self.n_dim,
         }
 
@@ -553,12 +556,9 @@ class StateManager:
         n_dim = state_dict.get("n_dim", 1)
         instance = cls(n_dim)
 
-        if "_current" in state_dict:
-            instance._current.update(state_dict["_current"])
-        if "_history" in state_dict:
-            instance._history.update(state_dict["_history"])
-
-        instance._invalidate_cache()
+        instance.update_from_dict(
+            {k: v for k, v in state_dict.items() if k in ("_current", "_history")}
+        )
         return instance
 
     def update_from_dict(self, state_dict: dict):
@@ -583,10 +583,18 @@ class StateManager:
         >>> state.get_current("beta")
         0.5
         """
+        # Copy on import: the caller keeps ownership of the dictionary it passed in
         if "_current" in state_dict:
-            self._current.update(state_dict["_current"])
+            self._current.update(
+                {k: self._ensure_copy(v) for k, v in state_dict["_current"].items()}
+            )
         if "_history" in state_dict:
-            self._history.update(state_dict["_history"])
+            self._history.update(
+                {
+                    k: [self._ensure_copy(x) for x in v]
+                    for k, v in state_dict["_history"].items()
+                }
+            )
         if "n_dim" in state_dict:
             self.n_dim = state_dict["n_dim"]
 
